@@ -19,7 +19,8 @@ func zzParseInfo(s *Session, b []byte, version int) (*metainfo.Info, error) {
 	if vrt.Bool("metadata_does_not_parse") {
 		return nil, errors.New("zz: invalid info")
 	}
-	info := metainfo.ZZConcreteInfo(zzPieceLen, zzNumPieces, []int64{zzPieceLen * zzNumPieces}, false)
+	// the metadata may describe a private torrent: refused for a magnet link
+	info := metainfo.ZZConcreteInfo(zzPieceLen, zzNumPieces, []int64{zzPieceLen * zzNumPieces}, vrt.Bool("metadata_is_private"))
 	info.Bytes = b
 	return info, nil
 }
@@ -31,6 +32,7 @@ func zzMetadataInv(t *torrent) {
 		return
 	}
 	vrt.Cover(true, "metadata adopted")
+	vrt.Assert(!t.info.Private, "metadata of a private torrent kept by a torrent added from a magnet link (a later start would download it with the public identity)")
 	vrt.Assert(len(t.info.Bytes) == zzMetaSize, "adopted metadata has the wrong size")
 	vrt.Assert(sha1.Sum(t.info.Bytes) == t.infoHash, "adopted metadata does not hash to the magnet link's info-hash")
 	vrt.Assert(len(t.infoDownloaders) == 0, "a metadata download is still registered after the metadata was adopted")
@@ -48,6 +50,7 @@ func zzMetadataInv(t *torrent) {
 //vrt:cover ZZMetadataAdopt metadata adopted
 //vrt:cover ZZMetadataAdopt message after adoption
 //vrt:cover ZZMetadataAdopt hash mismatch drops the peer
+//vrt:cover ZZMetadataAdopt private metadata refused
 func ZZMetadataAdopt() { zzMetadataAdopt(4) }
 
 // ZZMetadataAdopt5: 5 messages.
@@ -85,6 +88,7 @@ func zzMetadataAdopt(steps int) {
 			_, had := t.infoDownloaders[pe]
 			t.handlePeerMessage(peer.Message{Peer: pe, Message: msg})
 			vrt.Cover(had && pe.Closed && t.info == nil, "hash mismatch drops the peer")
+			vrt.Cover(had && t.info == nil && t.status() == Stopping, "private metadata refused")
 		}
 		if adopted {
 			vrt.Assert(t.info != nil && len(t.info.Bytes) == len(before), "adopted metadata replaced")
